@@ -4,6 +4,7 @@ import (
 	"fmt"
 	"os"
 	"path/filepath"
+	"regexp"
 	"sort"
 	"strconv"
 	"strings"
@@ -265,9 +266,27 @@ type c11Result struct {
 	Calls    int
 	Harness  error
 	Sample   string
+	Flushes  []c11Flush // fault-free run: the flush calls a fault run can fail
+	Reached  bool       // fault run: the injected call was reached
 }
 
-func c11Run(sc c11Scenario, tmp string) (res c11Result) {
+// c11Flush is one fsync/fdatasync of a litestream-owned file or directory (not the database, WAL or shm).
+type c11Flush struct {
+	Seg  int    // worker segment (1-based)
+	Seq  int    // counted call number within the segment
+	Path string // relative path
+	Dir  bool
+}
+
+var reDigits = regexp.MustCompile(`[0-9a-f]{8,}|[0-9]+`)
+
+func c11Run(sc c11Scenario, tmp string) c11Result { return c11RunFault(sc, tmp, nil) }
+
+// c11RunFault runs the scenario; with fault != nil the given flush call of the given worker segment does not
+// execute and returns EIO (killat fail). The same ordering rules are then evaluated up to and including the
+// result of the operation in flight: a flush that failed has flushed nothing, so an operation that reports
+// success over it acknowledges an unflushed publish.
+func c11RunFault(sc c11Scenario, tmp string, fault *c11Flush) (res c11Result) {
 	res.Rules = map[string]int{}
 	s, err := scn.NewAppOnly(sc.Cfg)
 	if err != nil {
@@ -288,7 +307,11 @@ func c11Run(sc c11Scenario, tmp string) (res c11Result) {
 		sg := &segment{trace: filepath.Join(tmp, fmt.Sprintf("%s-%d.trace", sc.Name, seg)), existing: listRel(s.Dir)}
 		segs = append(segs, sg)
 		var err error
-		p, err = startWorker(s.Dir, sc.Cfg, "record "+sg.trace)
+		mode := "record " + sg.trace
+		if fault != nil && fault.Seg == seg {
+			mode = fmt.Sprintf("fail %d 5 %s", fault.Seq, sg.trace)
+		}
+		p, err = startWorker(s.Dir, sc.Cfg, mode)
 		if err != nil {
 			return err
 		}
@@ -359,7 +382,7 @@ func c11Run(sc c11Scenario, tmp string) (res c11Result) {
 	if p != nil {
 		p.Stop()
 	}
-	for _, sg := range segs {
+	for si, sg := range segs {
 		tr, err := parseTrace(sg.trace)
 		if err != nil {
 			res.Harness = err
@@ -367,9 +390,24 @@ func c11Run(sc c11Scenario, tmp string) (res c11Result) {
 		}
 		m := newMonitor(s.Dir, sg.existing)
 		opi := 0
+		stopAtBoundary := false
 		for _, t := range tr {
 			if t.Seq > 0 {
 				res.Calls++
+			}
+			if fault == nil && t.Seq > 0 && (t.Name == "fsync" || t.Name == "fdatasync") && !strings.HasPrefix(t.Ret, "-") {
+				rel := m.rel(t.KV["path"])
+				isDir := t.KV["isdir"] == "1"
+				k, _ := classifyPath(rel)
+				own := k == "tmp" || k == "ltx" || k == "sidecar" || k == "restore-output" ||
+					(isDir && (strings.Contains(rel, "/ltx") || strings.HasPrefix(rel, "/replica") || rel == "/" || rel == ""))
+				if own {
+					res.Flushes = append(res.Flushes, c11Flush{Seg: si + 1, Seq: t.Seq, Path: rel, Dir: isDir})
+				}
+			}
+			if fault != nil && fault.Seg == si+1 && t.Seq == fault.Seq {
+				res.Reached = true
+				stopAtBoundary = true
 			}
 			if strings.HasPrefix(t.Name, "openat") && m.rel(t.KV["path"]) == "/.mark" && t.Seq > 0 {
 				if opi < len(sg.ops) {
@@ -388,9 +426,16 @@ func c11Run(sc c11Scenario, tmp string) (res c11Result) {
 					}
 					opi++
 				}
+				if stopAtBoundary {
+					break
+				}
 				continue
 			}
 			m.step(t)
+		}
+		if stopAtBoundary {
+			res.Problems = append(res.Problems, m.probs...)
+			break
 		}
 		res.Problems = append(res.Problems, m.probs...)
 		res.Events += m.events
@@ -461,6 +506,7 @@ func c11(args []string) int {
 	rules := map[string]int{}
 	exhaustive := true
 	kinds := map[string]bool{}
+	faultRuns, faultNotReached, faultInconclusive, faultCut, faultSkippedSameClass := 0, 0, 0, 0, 0
 	for _, sc := range scs {
 		if time.Now().After(deadline) {
 			exhaustive = false
@@ -487,6 +533,61 @@ func c11(args []string) int {
 			rep.Report(&ev.Violation{Kind: p.Kind, Signature: p.Kind + "|" + sc.Name + "|" + reScnDir.ReplaceAllString(site, ""),
 				Detail: map[string]any{"scenario": sc, "problem": p.String()}})
 		}
+		// Flush-failure enumeration: every flush of a litestream-owned file or directory seen in the fault-free run
+		// is made to fail (EIO, the call does not execute) in a run of its own; the operation in flight must not
+		// report success over an unflushed publish.
+		// quick tier: per class of flushed path (digits masked) the first and the last occurrence; thorough: all
+		flushes := r.Flushes
+		if ev.Tier() != "thorough" {
+			first, last := map[string]int{}, map[string]int{}
+			for i, fl := range flushes {
+				k := fmt.Sprintf("%v|%s", fl.Dir, reDigits.ReplaceAllString(normTmp(fl.Path), "#"))
+				if _, ok := first[k]; !ok {
+					first[k] = i
+				}
+				last[k] = i
+			}
+			var sel []c11Flush
+			for i, fl := range flushes {
+				k := fmt.Sprintf("%v|%s", fl.Dir, reDigits.ReplaceAllString(normTmp(fl.Path), "#"))
+				if first[k] == i || last[k] == i {
+					sel = append(sel, fl)
+				}
+			}
+			faultSkippedSameClass += len(flushes) - len(sel)
+			flushes = sel
+		}
+		for _, fl := range flushes {
+			if time.Now().After(deadline) {
+				exhaustive = false
+				faultCut++
+				continue
+			}
+			fl := fl
+			fr := c11RunFault(sc, tmp, &fl)
+			if fr.Harness != nil {
+				// the worker may legitimately die or a later operation may refuse to continue after the injected
+				// error; only a start failure is a harness problem
+				faultInconclusive++
+				continue
+			}
+			faultRuns++
+			if !fr.Reached {
+				faultNotReached++
+			}
+			for _, p := range fr.Problems {
+				site := p.Detail
+				if i := strings.Index(site, " "); i > 0 && strings.HasPrefix(site, "call #") {
+					site = site[strings.Index(site[6:], " ")+7:]
+				}
+				what := "file"
+				if fl.Dir {
+					what = "dir"
+				}
+				rep.Report(&ev.Violation{Kind: p.Kind, Signature: p.Kind + "|" + sc.Name + "|flush-fails:" + what + ":" + normTmp(fl.Path) + "|" + normTmp(reScnDir.ReplaceAllString(site, "")),
+					Detail: map[string]any{"scenario": sc, "failed_flush": fl, "problem": p.String()}})
+			}
+		}
 	}
 	e := &ev.Evidence{PropertyID: "C11", Tier: ev.Tier(), Seed: ev.Seed(), Level: "fault_enumeration", WallS: t.S(), Violations: rep.Unknown(),
 		Assumptions: []string{
@@ -496,9 +597,11 @@ func c11(args []string) int {
 			"mmap stores are invisible to the tracer (SQLite -shm only; not an LTX/restore path)",
 		},
 		Coverage: map[string]any{
-			"evaluations": events + rules["R2"] + rules["R4"], "distinct_nontrivial": len(kinds),
+			"evaluations": events + rules["R2"] + rules["R4"] + faultRuns, "distinct_nontrivial": len(kinds),
 			"rule":    "every rename onto a final name (LTX file, restore output, TXID sidecar) and every unlink of an LTX file in the recorded syscall traces of the scenarios is a checked event: R1 source fsynced after its last write before the rename; R2 directory fsynced before the operation reports success; R3 an unlinked LTX file is superseded by a durable file (uploaded copy, higher level covering its range, or snapshot); R4 no write ever targets a final name; distinct = (scenario, rule) pairs exercised",
 			"samples": samples, "exhaustive": exhaustive, "rename_unlink_events": events, "counted_syscalls": calls, "rule_checks": rules, "scenarios": len(scs),
+			"flush_failure_runs": faultRuns, "flush_failure_call_not_reached": faultNotReached, "flush_failure_inconclusive": faultInconclusive, "flush_failure_cut_by_budget": faultCut, "flush_failure_skipped_same_path_class_quick": faultSkippedSameClass,
+			"flush_failure_rule": "every fsync/fdatasync of a litestream-owned file or directory in the fault-free trace fails with EIO (without executing) in a run of its own; rules R1/R2 are evaluated up to the result of the operation in flight",
 		}}
 	if err := ev.Write(e); err != nil {
 		fmt.Fprintln(os.Stderr, err)
